@@ -51,6 +51,9 @@ def st_soc(tier):
                 kind = draw(st.sampled_from(["storage", "storage", "status"]))
                 size = draw(st.one_of(st.integers(1, 32), st.integers(33, 70), st.sampled_from([32, 64, 33, 8])))
                 regs.append({"kind": kind, "size": size})
+                if kind == "storage" and draw(st.integers(0, 2)) == 0:
+                    # the whole register changes at once, when the accessor's last word write arrives (the published sequence must end there)
+                    regs[-1]["atomic"] = True
             if draw(st.integers(0, 3)) == 0:
                 # one register pinned at a fixed location of its bank; lower locations that stay unused get filler registers
                 regs[draw(st.integers(0, len(regs) - 1))]["n"] = draw(st.integers(0, 6))
@@ -119,7 +122,7 @@ def _build(case):
             self.regs = []
             for ri, r in enumerate(spec["regs"]):
                 if r["kind"] == "storage":
-                    o = CSRStorage(r["size"], name="r%d" % ri, n=r.get("n"))
+                    o = CSRStorage(r["size"], name="r%d" % ri, n=r.get("n"), atomic_write=bool(r.get("atomic")))
                 else:
                     o = CSRStatus(r["size"], name="r%d" % ri, n=r.get("n"))
                 setattr(self, "r%d" % ri, o)
